@@ -450,7 +450,23 @@ def filter_citations(citations: List[CitationBase]) -> List[CitationBase]:
 
     # Overlaps are resolved by full span, but callers rely on citations being
     # ordered as they appear in the text:
-    return sorted(filtered_citations, key=lambda citation: citation.span())
+    filtered_citations.sort(key=lambda citation: citation.span())
+
+    # The loop above only compares neighbors in full span order. A citation
+    # whose full span starts far back can sort between a reference citation
+    # and the citation it overlaps, so check neighbors in text order too:
+    ordered_citations: List[CitationBase] = []
+    for citation in filtered_citations:
+        if ordered_citations and overlapping_citations(
+            citation.span(), ordered_citations[-1].span()
+        ):
+            if isinstance(ordered_citations[-1], ReferenceCitation):
+                ordered_citations.pop(-1)
+            elif isinstance(citation, ReferenceCitation):
+                continue
+        ordered_citations.append(citation)
+
+    return ordered_citations
 
 
 joke_cite: List[CitationBase] = [
